@@ -37,9 +37,11 @@ fn check_parser<R: PartialEq + std::fmt::Debug>(
             return fail("header-length", format!("{} header bytes", want), format!("{} header bytes", h.len()));
         }
     }
+    let noise: Vec<u8> = PREVIOUS.with(|p| p.borrow().clone());
     // x ++ t
     let mut xt = x.to_vec();
     xt.extend_from_slice(t);
+    let _ = parse(&noise);
     match parse(&xt) {
         Some(Ok(r2)) if r2 == r => {}
         Some(other) => {
@@ -66,6 +68,7 @@ fn check_parser<R: PartialEq + std::fmt::Debug>(
     // H ++ t
     let mut ht = h.clone();
     ht.extend_from_slice(t);
+    let _ = parse(&noise);
     match parse(&ht) {
         Some(Ok(r4)) if r4 == r => {}
         Some(other) => {
@@ -91,9 +94,18 @@ fn v2_len(x: &[u8]) -> Option<usize> {
     }
 }
 
+thread_local! {
+    /// the previous case's input: parsed again, as an unrelated call, between the two sides of each relation
+    static PREVIOUS: std::cell::RefCell<Vec<u8>> = std::cell::RefCell::new(Vec::new());
+}
+
 pub fn judge(c: &Pair, st: &mut Stats) -> Verdict {
-    // x is parsed from this thread's reusable read buffer (the same start address for every case)
-    crate::engine::in_arena(&c.0, |x| judge_at(c, x, &c.1, st))
+    // Every single parse below copies its input into this thread's reusable read buffer first (same start address for
+    // x, x ++ t, H and H ++ t, like a server's read buffer), and an unrelated input - the previous case's - is parsed
+    // in between: the two sides of a relation are never computed back to back on a clean slate.
+    let r = judge_at(c, &c.0, &c.1, st);
+    PREVIOUS.with(|p| *p.borrow_mut() = c.0.clone());
+    r
 }
 
 fn judge_at(c: &Pair, x: &Vec<u8>, t: &Vec<u8>, st: &mut Stats) -> Verdict {
@@ -123,7 +135,7 @@ fn judge_at(c: &Pair, x: &Vec<u8>, t: &Vec<u8>, st: &mut Stats) -> Verdict {
         "v1::try_from(&[u8])",
         x,
         t,
-        &|i| Some(imp::v1_bytes(i).map(|r| r.map(|h| (h.header.as_bytes().to_vec(), h.addresses)).map_err(|e| format!("{:?}", e)))),
+        &|i| crate::engine::in_arena(i, |v| Some(imp::v1_bytes(v).map(|r| r.map(|h| (h.header.as_bytes().to_vec(), h.addresses)).map_err(|e| format!("{:?}", e))))),
         &|r: &Result<(Vec<u8>, ppp::v1::Addresses), String>| r.as_ref().ok().map(|(h, _)| h.clone()),
         &v1_len,
         &|i| shape(i),
@@ -181,10 +193,12 @@ fn judge_at(c: &Pair, x: &Vec<u8>, t: &Vec<u8>, st: &mut Stats) -> Verdict {
         x,
         t,
         &|i| {
-            Some(imp::v2_parse(i).map(|r| {
-                r.map(|h| (h.as_bytes().to_vec(), h.as_bytes().len(), h.len(), h.command as u8, h.protocol as u8, format!("{:?}", h.addresses)))
-                    .map_err(|e| format!("{:?}", e))
-            }))
+            crate::engine::in_arena(i, |v| {
+                Some(imp::v2_parse(v).map(|r| {
+                    r.map(|h| (h.as_bytes().to_vec(), h.as_bytes().len(), h.len(), h.command as u8, h.protocol as u8, format!("{:?}", h.addresses)))
+                        .map_err(|e| format!("{:?}", e))
+                }))
+            })
         },
         &|r: &Result<(Vec<u8>, usize, usize, u8, u8, String), String>| r.as_ref().ok().map(|t| t.0.clone()),
         &v2_len,
@@ -196,12 +210,14 @@ fn judge_at(c: &Pair, x: &Vec<u8>, t: &Vec<u8>, st: &mut Stats) -> Verdict {
         x,
         t,
         &|i| {
-            Some(imp::auto(i).map(|r| match r {
-                HeaderResult::V1(r) => (1u8, r.map(|h| (h.header.as_bytes().to_vec(), format!("{:?}", h.addresses))).map_err(|e| format!("{:?}", e))),
-                HeaderResult::V2(r) => {
-                    (2u8, r.map(|h| (h.as_bytes().to_vec(), format!("{:?} {:?} {:?}", h.command, h.protocol, h.addresses))).map_err(|e| format!("{:?}", e)))
-                }
-            }))
+            crate::engine::in_arena(i, |v| {
+                Some(imp::auto(v).map(|r| match r {
+                    HeaderResult::V1(r) => (1u8, r.map(|h| (h.header.as_bytes().to_vec(), format!("{:?}", h.addresses))).map_err(|e| format!("{:?}", e))),
+                    HeaderResult::V2(r) => {
+                        (2u8, r.map(|h| (h.as_bytes().to_vec(), format!("{:?} {:?} {:?}", h.command, h.protocol, h.addresses))).map_err(|e| format!("{:?}", e)))
+                    }
+                }))
+            })
         },
         &|r: &(u8, Result<(Vec<u8>, String), String>)| r.1.as_ref().ok().map(|t| t.0.clone()),
         &|i| if a2 { v2_len(i) } else { v1_len(i) },
